@@ -5005,6 +5005,7 @@ void* picture_decision_kernel(void *input_ptr)
                                 // Set missing parts in the overlay  pictures
                                 if (loop_index == 1) {
                                     pcs_ptr = pcs_ptr->overlay_ppcs_ptr;
+                                    frm_hdr = &pcs_ptr->frm_hdr;
                                     initialize_overlay_frame(pcs_ptr);
                                     picture_type = P_SLICE;
                                 }
